@@ -1106,7 +1106,10 @@ def write_to_pathens(state, pn_archive):
             string = ""
             string += f"\t{pn:3.0f}\t"
             string += f"{traj_data[pn]['length']:5.0f}" + "\t"
-            string += f"{traj_data[pn]['max_op'][0]:8.5f}" + "\t"
+            # print the value the order file holds (six decimals): that is
+            # what a restarted run reads back, so both give the same row
+            max_op = float(f"{traj_data[pn]['max_op'][0]:.6f}")
+            string += f"{max_op:8.5f}" + "\t"
             frac = []
             weight = []
             if len(traj_data[pn]["weights"]) == 1:
